@@ -1220,6 +1220,16 @@ fn parent(args: &Args) {
         if !res.sim.is_empty() {
             stats.bump("witness_replay", &res.sim);
         }
+        // the logical trace recorded by the cfg(patronus_verif) hook of pdr.rs (replayed by the driver
+        // against the extracted concrete model)
+        if res.fields.contains("(trace on") {
+            stats.inc("runs_with_trace");
+            stats.bump("trace_queries", &bucket(res.fields.matches(" (q ").count() as u64));
+            stats.bump("trace_blocked_cubes", &bucket(res.fields.matches(" (block ").count() as u64));
+            stats.bump("trace_frames", &format!("{}", res.fields.matches(" (addframe ").count().min(20)));
+        } else {
+            stats.inc("runs_without_trace_hook");
+        }
         script_hashes.entry(format!("{}|{}", job.sys_text, job.cfg.gen_on)).or_default().insert(res.hash.clone());
         stats.sample(&line, 3);
         writeln!(out, "{line}").unwrap();
